@@ -7,7 +7,9 @@
 //! Real functions called: `push_client_cmd`, `flush_cmd_buffers` (→ `process_batch` /
 //! `unified_write_and_linear_read` / `execute_and_process_raft_rpc` / `process_lease_read`), `tick`,
 //! `handle_append_result`, `handle_log_flushed`, `handle_apply_completed`, `drain_read_buffer`,
-//! `handle_inbound_event(JoinCluster | FatalError)`, `initiate_noop_commit` (hook), and for role=follower
+//! `handle_inbound_event(JoinCluster | FatalError)`, `initiate_noop_commit` (hook); the exit events `sd` / `fx` run through
+//! the unchanged raft.rs `Raft::handle_internal_event(BecomeFollower | FatalError)` with the leader wrapped in a real
+//! `Raft` (drain_read_buffer + become_follower + role replacement = drop of the LeaderState); for role=follower
 //! `RaftRoleState::push_client_cmd` on a real `FollowerState`.
 //! Every request gets a oneshot sender whose receiver is polled after every event (answer / dropped / nothing).
 //! Logical clock: tokio paused time + `verif_clock` (now_ms) advanced together by `t<ms>` events.
@@ -29,7 +31,7 @@ use d_engine_core::{
     MaybeCloneOneshotReceiver, MockCommitHandler, MockElectionCore, MockMembership, MockPurgeExecutor,
     MockSnapshotPolicy, MockStateMachine, MockStateMachineHandler, MockStorageEngine, MockTransport,
     PersistenceConfig, PersistenceStrategy, RaftContext, RaftCoreHandlers, RaftLog, RaftNodeConfig, RaftOneshot,
-    RaftStorageHandles, ReadLease, ReplicationHandler, ScanResult, TypeConfig,
+    RaftStorageHandles, ReadLease, ReplicationHandler, ScanResult, TypeConfig, Raft, RaftRole, SignalParams,
 };
 use d_engine_proto::client::write_command::Operation;
 use d_engine_proto::client::WriteCommand;
@@ -160,6 +162,37 @@ async fn world(n: u32, pre: u64, trunc: u64, cfg: RaftNodeConfig) -> World {
         node_config: Arc::new(cfg),
     };
     World { ctx, itx, _irx: irx, _iorx: iorx, sim }
+}
+
+
+/// Wrap the leader in a real `Raft` (same log / state machine / membership / handlers) so that the exit events run
+/// through the unchanged `Raft::handle_internal_event` of raft.rs.
+fn wrap_in_raft(l: LeaderState<QT>, ctx: &RaftContext<QT>) -> Raft<QT> {
+    let (itx, irx) = mpsc::unbounded_channel();
+    let (etx, erx) = mpsc::channel(16);
+    let (ctx_tx, ctx_rx) = mpsc::channel(16);
+    let (_sd_tx, sd_rx) = tokio::sync::watch::channel(());
+    let mut transport = MockTransport::<QT>::new();
+    transport.expect_open_replication_stream().returning(|_, _, _| {
+        Err(d_engine_core::Error::System(d_engine_core::SystemError::Network(
+            d_engine_core::NetworkError::PeerConnectionNotFound(0),
+        )))
+    });
+    Raft::<QT>::new(
+        1,
+        RaftRole::Leader(Box::new(l)),
+        RaftStorageHandles { raft_log: ctx.storage.raft_log.clone(), state_machine: ctx.storage.state_machine.clone() },
+        transport,
+        RaftCoreHandlers {
+            election_handler: MockElectionCore::new(),
+            replication_handler: ReplicationHandler::new(1),
+            state_machine_handler: ctx.handlers.state_machine_handler.clone(),
+            purge_executor: ctx.handlers.purge_executor.clone(),
+        },
+        ctx.membership.clone(),
+        SignalParams::new(itx, irx, etx, erx, ctx_tx, ctx_rx, sd_rx),
+        ctx.node_config.clone(),
+    )
 }
 
 type RespRx = MaybeCloneOneshotReceiver<Result<ClientResponse, Status>>;
@@ -322,6 +355,7 @@ async fn run_case(f: &std::collections::HashMap<String, String>, ops: &str) -> S
     let mut next_id: u64 = 0;
     let mut out: Vec<String> = vec![];
     let mut last_noop: Option<u64> = None;
+    let mut rafts: Vec<Raft<QT>> = vec![];
     let mut last_image: Option<(d_engine_core::leader_state::VerifLeaderQueues, d_engine_core::leader_state::VerifLeaderDeadlines)> = None;
 
     for op in ops.split(';').filter(|s| !s.is_empty()) {
@@ -385,26 +419,35 @@ async fn run_case(f: &std::collections::HashMap<String, String>, ops: &str) -> S
                     let d = ctx.raft_log().last_entry_id();
                     l.handle_log_flushed(d, ctx, &w.itx).await;
                 } else if op == "sd" {
-                    // raft.rs BecomeFollower: drain_read_buffer(), then the role is replaced (LeaderState dropped)
-                    let _ = l.drain_read_buffer();
-                    let q = (l.verif_queues(), l.verif_deadlines());
-                    // after the drop every queue is gone
-                    let mut q0 = q.0.clone();
-                    q0.pending_write_apply.clear();
-                    q0.pending_commit_actions.clear();
-                    let mut d0 = q.1.clone();
-                    d0.pending_commit_actions.clear();
-                    last_image = Some((q0, d0));
+                    // the REAL raft.rs handling of InternalEvent::BecomeFollower: drain_read_buffer(), then
+                    // `self.role = self.role.become_follower()` (the LeaderState is dropped by that assignment)
                     term = l.current_term();
                     commit = l.commit_index();
                     last_noop = l.noop_log_id;
-                    leader = None;
+                    let lead = leader.take().unwrap();
+                    let mut raft = wrap_in_raft(lead, ctx);
+                    let r = raft.handle_internal_event(InternalEvent::BecomeFollower(None)).await;
+                    if r.is_err() { return "become-follower-failed".into(); }
+                    if !matches!(raft.role, RaftRole::Follower(_)) { return "not-follower-after-stepdown".into(); }
+                    last_image = Some((Default::default(), Default::default()));
+                    rafts.push(raft);
                 } else if op == "fi" {
                     let r = l.handle_inbound_event(InboundEvent::FatalError { source: "StateMachine".into(), error: "boom".into() }, ctx, w.itx.clone()).await;
                     if r.is_ok() { return "fatal-returned-ok".into(); }
                     halted = true;
                 } else if op == "fx" {
-                    // raft.rs `InternalEvent::FatalError` => `return Err(Fatal)`: the role state is not touched
+                    // the REAL raft.rs handling of `InternalEvent::FatalError` (what the SM worker sends): returns
+                    // Err(Fatal); the loop exits; the role state is whatever that code leaves
+                    let lead = leader.take().unwrap();
+                    let mut raft = wrap_in_raft(lead, ctx);
+                    let r = raft.handle_internal_event(InternalEvent::FatalError { source: "StateMachine".into(), error: "boom".into() }).await;
+                    if r.is_ok() { return "fatal-returned-ok".into(); }
+                    let role = std::mem::replace(&mut raft.role, RaftRole::Follower(Box::new(FollowerState::<QT>::new(1, ctx.node_config.clone(), None, None))));
+                    match role {
+                        RaftRole::Leader(b) => leader = Some(*b),
+                        _ => return "role-changed-by-fatal".into(),
+                    }
+                    rafts.push(raft);
                     halted = true;
                 } else if let Some(a) = op.strip_prefix("ap") {
                     let k: u64 = match a.parse() { Ok(x) => x, Err(_) => return "bad-case".into() };
@@ -490,6 +533,7 @@ async fn run_case(f: &std::collections::HashMap<String, String>, ops: &str) -> S
     };
     // after a step-down the real state is gone: the noop index printed is the one last seen before the drop
     let noop_s = match noop { Some(x) => x.to_string(), None => "-".into() };
+    drop(rafts);
     let phase = if leader_role && leader.is_none() { "stepped" } else if halted { "halted" } else { "run" };
     format!(
         "{}|last={} commit={} noop={} P={} L={} S={} E={} W={} A={} R={} Q={} C={} log={} phase={} sd={}",
